@@ -9,6 +9,7 @@ mod astobs;
 mod input;
 mod interp;
 mod pairs;
+mod planobs;
 mod sat;
 mod types;
 mod uni;
@@ -46,6 +47,7 @@ fn main() {
             "types" => types::run_case(&case),
             "pairs" => pairs::run_case(&u, &case),
             "interp" => interp::run_case(&u, &case),
+            "plan" => planobs::run_case(&u, &case),
             _ => {
                 eprintln!("unknown command {}", cmd);
                 std::process::exit(2);
